@@ -402,20 +402,47 @@ def r05_4(ctx: Ctx) -> None:
            "protoclusters promoted into an existing candidate also receive a SINGLE", form="")
 
 
+OVERLAP_TESTS = ("locations_overlap", "overlaps_with", "location_contains_other", "update_if_contained", "contains", "is_contained_by")
+
+
 def r05_6(ctx: Ctx) -> None:
+    """ sweeps over a start-sorted list that look for the elements overlapping a query: (a) a bisection-derived lower bound
+        must be the *lower* bisection point (ties), and (b) it must not cut off earlier elements at all - in a list sorted
+        by start the elements overlapping a query are not the ones next to its insertion point: an earlier, longer element
+        reaches further than a later, shorter one, so `bisect_left(...) - 1` skips it """
     from .bisect_lint import scan_bounds
     from ..index import _walk_functions
     count = 0
     for qual, func in _walk_functions(ctx.repo.mod(FORM).tree, ""):
+        bounded = {}
         for node, role, kind, ok in scan_bounds(func):
             count += 1
+            bounded[id(node)] = (node, role)
             ctx.ob("R05.6", FORM, node, qual, f"{role} bound of {txt(node)[:50]}", ok,
                    "a forward scan over a sorted list starts at the lower bisection point (bisect_left, minus a margin) so that "
                    "elements tying with the searched key are not skipped",
                    detail="" if ok else f"the {role} bound derives from bisect_{kind}: elements equal to the key are skipped",
                    form=f"{txt(node)}  [{role} bound from bisect_{kind}]")
+        # sweeps with an early exit on `start > end` that test overlap / containment
+        for loop in [n for n in walk_local(func) if isinstance(n, ast.For)]:
+            tests = [c for c in calls(loop) if (call_name(c).split(".")[-1] in OVERLAP_TESTS or last_attr(c) in OVERLAP_TESTS)]
+            exits = [b for b in walk_local(loop) if isinstance(b, ast.Break)]
+            if not tests or not exits:
+                continue
+            iterated = [n for n in ast.walk(loop.iter) if isinstance(n, ast.Subscript) and id(n) in bounded and bounded[id(n)][1] == "lower"]
+            if not iterated and not isinstance(loop.iter, ast.Name):
+                continue
+            count += 1
+            ok = not iterated
+            ctx.ob("R05.6", FORM, loop, qual, f"overlap sweep over {txt(loop.iter)[:40]} starts at the beginning", ok,
+                   "a sweep that looks for the elements overlapping a query in a start-sorted list visits every element that "
+                   "starts before the query ends: a start at a fixed distance before the bisection point skips an earlier, "
+                   "longer element",
+                   detail="" if ok else "hybrids h0 [0:40), h1 [50:1050) (core 300-700), h2 [100:200) and a protocluster s (core 650-800) "
+                   "whose core overlaps h1's: the look-back lands on h2, h1 is never examined and s stays a single - without the "
+                   "unrelated h0 and h2 it joins h1", form=txt(loop.iter))
     if count < 3:
-        raise AnalysisError(f"formation.py: expected at least 3 bisection-bounded scans, found {count}")
+        raise AnalysisError(f"formation.py: expected at least 3 sorted sweeps, found {count}")
 
 
 def r05_7(ctx: Ctx) -> None:
